@@ -535,9 +535,19 @@ func (w *World) registerJSONDecodeIntrinsics() {
 	// go-oidc: a parse-only verifier (signature, issuer, audience, expiry checks switched off by
 	// the harness) hands back the token with its claims; Claims decodes them
 	oidcp := "github.com/coreos/go-oidc/v3/oidc"
+	// NewVerifier records the issuer and the configuration; Verify applies go-oidc's documented
+	// checks in the library's order (malformed, issuer, client id, expiry, signature).  The
+	// signature verdict of a key set is a free boolean per token ("the issuer's key signed it"):
+	// natively an unsigned harness token never verifies, so the accepting branch is ideal-only.
 	I[oidcp+".NewVerifier"] = func(e *Exec, fn *ssa.Function, a []Value) Value {
 		vt := e.errorsPkgType(oidcp, "IDTokenVerifier")
-		return &Pointer{obj: e.newObject(vt, e.zero(vt), "parse-only verifier")}
+		obj := e.newObject(vt, e.zero(vt), "go-oidc verifier")
+		e.hidden[fmt.Sprintf("oidcverifier:%d", obj.id)] = []Value{a[0], a[2]}
+		return &Pointer{obj: obj}
+	}
+	I[oidcp+".NewRemoteKeySet"] = func(e *Exec, fn *ssa.Function, a []Value) Value {
+		kt := e.errorsPkgType(oidcp, "RemoteKeySet")
+		return &Pointer{obj: e.newObject(kt, e.zero(kt), "remote key set")}
 	}
 	I["(*"+oidcp+".IDTokenVerifier).Verify"] = func(e *Exec, fn *ssa.Function, a []Value) Value {
 		raw := a[2].(*Term)
@@ -556,8 +566,116 @@ func (w *World) registerJSONDecodeIntrinsics() {
 		if payload == nil {
 			return tuple(&Pointer{}, e.newError("oidc: malformed jwt"))
 		}
+		claimsV := e.hidden["json:"+payload.String()]
+		cfgGet := func(cfg *Pointer, name string) Value {
+			st := under(cfg.obj.typ).(*types.Struct)
+			sv := e.load(cfg).(*StructVal)
+			for i := 0; i < st.NumFields(); i++ {
+				if st.Field(i).Name() == name {
+					return sv.fields[i]
+				}
+			}
+			e.unsupported("oidc.Config has no field " + name)
+			return nil
+		}
+		claim := func(name string) *IfaceVal {
+			m, ok := claimsV.(*MapVal)
+			if !ok {
+				return nil
+			}
+			for i, k := range m.keys {
+				if kt, ok := k.(*Term); ok {
+					if ks, ok := kt.strVal(); ok && ks == name {
+						if iv, ok := m.vals[i].(*IfaceVal); ok {
+							return iv
+						}
+					}
+				}
+			}
+			return nil
+		}
+		p := a[0].(*Pointer)
+		if isNilPtr(p) {
+			e.panicHere("nil pointer dereference (nil *oidc.IDTokenVerifier)")
+		}
+		if rec, ok := e.hidden[fmt.Sprintf("oidcverifier:%d", p.obj.id)]; ok {
+			issuer := rec.([]Value)[0].(*Term)
+			cfg, _ := rec.([]Value)[1].(*Pointer)
+			if cfg == nil || isNilPtr(cfg) {
+				e.panicHere("nil pointer dereference (nil *oidc.Config)")
+			}
+			isTrue := func(v Value) bool { return e.branch(v.(*Term)) }
+			if !isTrue(cfgGet(cfg, "SkipIssuerCheck")) {
+				iss := mkStr("")
+				if c := claim("iss"); c != nil && e.jsonKind(c) == "string" {
+					iss = c.val.(*Term)
+				} else if c != nil && c.typ != nil {
+					return tuple(&Pointer{}, e.newError("oidc: failed to unmarshal claims"))
+				}
+				if !e.branch(mkEq(iss, issuer)) {
+					return tuple(&Pointer{}, e.newError2(mkConcat(mkStr("oidc: id token issued by a different provider, expected \""), issuer, mkStr("\" got \""), iss, mkStr("\""))))
+				}
+			}
+			if !isTrue(cfgGet(cfg, "SkipClientIDCheck")) {
+				cid := cfgGet(cfg, "ClientID").(*Term)
+				if e.branch(mkEq(cid, mkStr(""))) {
+					return tuple(&Pointer{}, e.newError("oidc: invalid configuration, clientID must be provided or SkipClientIDCheck must be set"))
+				}
+				found := false
+				if c := claim("aud"); c != nil {
+					switch e.jsonKind(c) {
+					case "string":
+						found = e.branch(mkEq(c.val.(*Term), cid))
+					case "slice":
+						for _, x := range e.sliceElems(c.val.(*SliceVal)) {
+							if xi, ok := x.(*IfaceVal); ok && e.jsonKind(xi) == "string" {
+								if e.branch(mkEq(xi.val.(*Term), cid)) {
+									found = true
+									break
+								}
+							} else {
+								return tuple(&Pointer{}, e.newError("oidc: failed to unmarshal claims"))
+							}
+						}
+					case "nil":
+					default:
+						return tuple(&Pointer{}, e.newError("oidc: failed to unmarshal claims"))
+					}
+				}
+				if !found {
+					return tuple(&Pointer{}, e.newError("oidc: expected audience got other"))
+				}
+			}
+			if !isTrue(cfgGet(cfg, "SkipExpiryCheck")) {
+				c := claim("exp")
+				switch {
+				case c == nil || c.typ == nil:
+					return tuple(&Pointer{}, e.newError("oidc: token is expired (Token Expiry: 0001-01-01 00:00:00 +0000 UTC)"))
+				case e.jsonKind(c) == "float":
+					f, ok := c.val.(*FloatVal)
+					if !ok {
+						e.unsupported("go-oidc expiry check on a symbolic exp claim")
+					}
+					if f.f < 4000000000 {
+						if f.f > 1000000000 {
+							e.unsupported("go-oidc expiry check on an exp claim near the wall clock")
+						}
+						return tuple(&Pointer{}, e.newError("oidc: token is expired"))
+					}
+				default:
+					return tuple(&Pointer{}, e.newError("oidc: failed to unmarshal claims"))
+				}
+			}
+			if !isTrue(cfgGet(cfg, "InsecureSkipSignatureCheck")) {
+				sv := mkVar("sigvalid!"+payload.args[0].String(), SBool)
+				if !e.branch(sv) {
+					return tuple(&Pointer{}, e.newError("failed to verify signature: no key of the issuer signed this token"))
+				}
+				e.noSample = true
+			}
+		}
 		obj := e.newObject(it, e.zero(it), "id token")
-		e.hidden[fmt.Sprintf("idtokenclaims:%d", obj.id)] = e.hidden["json:"+payload.String()]
+		e.hidden[fmt.Sprintf("idtokenclaims:%d", obj.id)] = claimsV
 		return tuple(&Pointer{obj: obj}, nilIface)
 	}
 	I["(*"+oidcp+".IDToken).Claims"] = func(e *Exec, fn *ssa.Function, a []Value) Value {
